@@ -203,7 +203,7 @@ def _rs_str_match(rs: RustProgram, file: str, fname: str) -> tuple[dict[str, Any
             if a == "_":
                 default = v
             else:
-                out[a.strip('"')] = v
+                out.setdefault(a.strip('"'), v)        # a match takes its first matching arm
     return out, default
 
 
